@@ -329,7 +329,7 @@ func c13Gen(r *rand.Rand, n int, tier string) []string {
 				}
 				if r.Intn(4) == 0 {
 					c.Dates = []string{pick(r, []string{"2024-02-29", "2023-06-15", "2023-06-16"})}
-				} else if r.Intn(3) == 0 {
+				} else if r.Intn(2) == 0 {
 					// one or two of the days the case plays in (windows that wrap past midnight then straddle two dates)
 					for k := 0; k < 1+r.Intn(2); k++ {
 						c.Dates = append(c.Dates, time.Unix(day0+int64(r.Intn(4))*86400, 0).UTC().Format("2006-01-02"))
